@@ -14,7 +14,7 @@ verus! {
 //@anchor for batch in reader
 //@sig fn replay_active(db: &Database, reader: JournalBatchReader, keyspaces: &KsReadGuard) -> FjResult<()>
 //@contract
-    requires old(w).recovering, reader.idx@ == 0, no_indirection(reader.emits@), ids_valid(reader.emits@),
+    requires old(w).recovering, old(w).active, reader.idx@ == 0, no_indirection(reader.emits@), ids_valid(reader.emits@),
         forall|k: u64| old(w).trees.dom().contains(k) ==> true,
     ensures replay_frame(*old(w), *final(w)), // [C12:replay-touches-only-trees]
 //@loop 0
